@@ -331,8 +331,12 @@ impl<A> ZXTape<A> {
     pub fn process_clocks(&mut self, clocks: usize) -> (r: core::result::Result<(), Error>)
         ensures final(self).calls() == old(self).calls().push(clocks), r == old(self).answer(clocks),
     { unimplemented!() }
+    /// ghost: the EAR level the tape currently presents (what it is, is C11)
+    pub uninterp spec fn ear(&self) -> bool;
     #[verifier::external_body]
-    pub fn current_bit(&self) -> bool { unimplemented!() }
+    pub fn current_bit(&self) -> (r: bool)
+        ensures r == self.ear(),
+    { unimplemented!() }
 }
 impl AymPrecise {
     /// ghost log of register writes that reached the generator
@@ -530,6 +534,41 @@ pub open spec fn display_offset(y: int, xb: int) -> int {
 // ZXController
 // ======================================================================
 //@ item rustzx-core/src/zx/controller.rs struct ZXController
+
+/// R-shim: u16::to_le_bytes (ASSUMED: byte 0 = low, byte 1 = high)
+#[verifier::external_body]
+pub fn vx_u16_to_le_bytes(x: u16) -> (r: [u8; 2])
+    ensures r[0] == (x & 0xff) as u8, r[1] == (x >> 8) as u8,
+{
+    x.to_le_bytes()
+}
+
+/// R-opaque stand-in for `self.io_extender.as_mut().and_then(|e| e.extends_port(port).then(|| e.read(port)))`
+/// (Option::and_then / bool::then with a closure that captures `&mut` are outside the Verus subset):
+/// ASSUMED to ask the extender whether it claims the port and to read it exactly when it does.
+#[verifier::external_body]
+pub fn vx_ext_read<E: IoExtender>(ext: &mut Option<E>, port: u16) -> (r: Option<u8>)
+    ensures
+        ((*old(ext)) is Some && (*old(ext))->Some_0.claims(port)) ==> r is Some && (*final(ext)) is Some
+            && (*final(ext))->Some_0.log() == (*old(ext))->Some_0.log().push((false, port, r->Some_0))
+            && (forall|p: u16| (*final(ext))->Some_0.claims(p) == (*old(ext))->Some_0.claims(p)),
+        !((*old(ext)) is Some && (*old(ext))->Some_0.claims(port)) ==> r is None && *final(ext) == *old(ext),
+{ unimplemented!() }
+
+/// C07/C17: AND of the half-rows whose selector bit (bit n of the port's high byte) is zero, rows < n
+pub open spec fn rows_and(h: u8, k0: [u8; 8], k1: [u8; 8], k2: [u8; 8], n: nat) -> u8
+    decreases n,
+{
+    if n == 0 { 0xFFu8 } else {
+        let i = (n - 1) as int;
+        let rest = rows_and(h, k0, k1, k2, (n - 1) as nat);
+        if (h >> (i as usize)) & 0x01 == 0 { rest & (k0@[i] & k1@[i] & k2@[i]) } else { rest }
+    }
+}
+pub open spec fn sel_mouse_buttons(port: u16) -> bool { port & 0x0121 == 0x0001 }
+pub open spec fn sel_mouse_x(port: u16) -> bool { port & 0x0521 == 0x0101 }
+pub open spec fn sel_mouse_y(port: u16) -> bool { port & 0x0521 == 0x0501 }
+pub open spec fn sel_kempston(port: u16) -> bool { port & 0x00E0 == 0 }
 
 /// C07 device-select predicates, literally from the statement
 pub open spec fn sel_ula(port: u16) -> bool { port & 0x0001 == 0 }
@@ -906,6 +945,13 @@ impl<H: Host> ZXController<H> {
             final(self).same_but_mixer(old(self)),
 //@ end
 
+//@ fn rustzx-core/src/zx/controller.rs impl <H:Host>ZXController<H>::read_ay_port props C07 C18
+//@ ret r
+//@ sig
+        requires old(self).mixer.ay.wf(),
+        ensures *final(self) == *old(self), r == old(self).mixer.ay.regs@[old(self).mixer.ay.current_reg as int],
+//@ end
+
 //@ fn rustzx-core/src/zx/controller.rs impl <H:Host>Z80BusforZXController<H>::write_io props C07 C04 C08 C09 C18
 //@ sig
         requires old(self).inv(), old(self).room(8),
@@ -1028,6 +1074,97 @@ impl<H: Host> ZXController<H> {
 //@ at 1 /if row < CANVAS_HEIGHT/
         proof { assert(((clocks & 0x04) == 0) <==> (clocks % 8 < 4)) by(bit_vector); }
 //@ end
+
+    /// number of devices a port *read* selects (C07 speaks about ports where this is at most 1)
+    pub open spec fn ndev_r(&self, port: u16) -> int {
+        (if self.ext_claims(port) { 1int } else { 0 }) + (if sel_ula(port) { 1int } else { 0 })
+            + (if self.mouse is Some && (sel_mouse_buttons(port) || sel_mouse_x(port) || sel_mouse_y(port)) { 1int } else { 0 })
+            + (if sel_ay_select(port) { 1int } else { 0 })
+            + (if self.kempston is Some && sel_kempston(port) { 1int } else { 0 })
+    }
+    /// floating-bus byte at in-frame clock `c` (statement of C07)
+    pub open spec fn fb_byte(&self, c: int) -> u8 {
+        if Self::fb_fetching(self.machine, c) { self.memory.peek(Self::fb_addr(self.machine, c) as u16) } else { 0xFFu8 }
+    }
+
+//@ fn rustzx-core/src/zx/controller.rs impl <H:Host>Z80BusforZXController<H>::read_io props C07 C04 C17
+//@ ret r
+//@ sig
+        requires old(self).inv(), old(self).room(8),
+        ensures final(self).inv(),
+            // C04: port-cycle timing, the same four patterns as a write
+            final(self).total() == io_end(old(self).machine, old(self).contended(port), port & 1 == 0, old(self).total()),
+            // a read changes nothing but time (and the extender's own log)
+            final(self).same_core_but_ext(old(self)),
+            // C07: a host extender receives exactly the ports it claims, and its answer is the result
+            old(self).ext_claims(port) ==> final(self).io_extender is Some
+                && final(self).io_extender->Some_0.log() == old(self).io_extender->Some_0.log().push((false, port, r)),
+            !old(self).ext_claims(port) ==> final(self).io_extender == old(self).io_extender,
+            // ULA: selected half-rows AND-ed (C17), tape EAR on bit 6
+            // (the EAR level is the tape's at the moment of the read: after the contention delays and
+            // before the last T-state of the cycle has been handed to the tape)
+            sel_ula(port) && old(self).ndev_r(port) == 1 ==> exists|t: ZXTape<H::TapeAsset>|
+                final(self).tape.calls() == (#[trigger] t.calls()).push(1usize)
+                && r == rows_and((port >> 8) as u8, old(self).keyboard, old(self).keyboard_extended, old(self).keyboard_sinclair, 8)
+                     ^ (if t.ear() { 0u8 } else { 0x40u8 }),
+            // Kempston mouse
+            old(self).mouse is Some && sel_mouse_buttons(port) && old(self).ndev_r(port) == 1 ==> r == old(self).mouse->Some_0.buttons_port,
+            old(self).mouse is Some && sel_mouse_x(port) && old(self).ndev_r(port) == 1 ==> r == old(self).mouse->Some_0.x_pos_port,
+            old(self).mouse is Some && sel_mouse_y(port) && old(self).ndev_r(port) == 1 ==> r == old(self).mouse->Some_0.y_pos_port,
+            // AY read-back of the selected register
+            sel_ay_select(port) && old(self).ndev_r(port) == 1 ==> r == old(self).mixer.ay.regs@[old(self).mixer.ay.current_reg as int],
+            // Kempston joystick
+            old(self).kempston is Some && sel_kempston(port) && old(self).ndev_r(port) == 1 ==> r == old(self).kempston->Some_0.state,
+            // no device: the floating bus at the T-state before the last one of the port cycle
+            old(self).ndev_r(port) == 0 ==> exists|c: usize, pf: int|
+                #[trigger] at_time(pf, frame_len(old(self).machine), c) + 1
+                    == io_end(old(self).machine, old(self).contended(port), port & 1 == 0, old(self).total())
+                && (c as int) < frame_len(old(self).machine)
+                && r == old(self).fb_byte(c as int),
+//@ opaque 1 /let io_extender_value = self/ vx_ext_read(&mut self.io_extender, port)
+self.io_extender.as_mut().and_then(|e| e.extends_port(port).then(|| e.read(port)))
+//@ at 0 //
+        broadcast use group_call_logs;
+        proof {
+            assert(port & 0x0521 == 0x0101 ==> !(port & 0x0121 == 0x0001)) by(bit_vector);
+            assert(port & 0x0521 == 0x0501 ==> !(port & 0x0121 == 0x0001) && !(port & 0x0521 == 0x0101)) by(bit_vector);
+            assert((port >> 8) as u8 == ((port >> 8) as u8)) ;
+        }
+//@ loop 0 iter it
+                invariant
+                    h == (port >> 8) as u8,
+                    tmp == rows_and(h, self.keyboard, self.keyboard_extended, self.keyboard_sinclair, it.index@ as nat),
+//@ at 1 /if !self\.tape\.current_bit\(\)/
+            proof { assert(tmp ^ 0u8 == tmp) by(bit_vector); }
+//@ at 1 /self\.wait_internal\(1\)/
+        proof {
+            assert(at_time(self.passed_frames as int, frame_len(self.machine), self.frame_clocks) == self.total());
+            assert(self.contended(port) == old(self).contended(port));
+        }
+//@ end
+
+    /// same_core, except that the host extender may have logged a read
+    pub open spec fn same_core_but_ext(&self, o: &Self) -> bool {
+        &&& self.machine == o.machine
+        &&& self.memory == o.memory
+        &&& self.kempston == o.kempston
+        &&& self.mouse == o.mouse
+        &&& self.debug_interface == o.debug_interface
+        &&& self.mixer.beeper == o.mixer.beeper
+        &&& self.mixer.ay.same_port_state(&o.mixer.ay)
+        &&& self.keyboard == o.keyboard
+        &&& self.keyboard_extended == o.keyboard_extended
+        &&& self.keyboard_sinclair == o.keyboard_sinclair
+        &&& self.caps_shift_modifier_mask == o.caps_shift_modifier_mask
+        &&& self.border_color == o.border_color
+        &&& self.events == o.events
+        &&& self.paging_enabled == o.paging_enabled
+        &&& self.screen_bank == o.screen_bank
+        &&& self.current_port_7ffd == o.current_port_7ffd
+        &&& border_sets(self.border.calls()) == border_sets(o.border.calls())
+        &&& screen_banks(self.screen.calls()) == screen_banks(o.screen.calls())
+    }
+
 
 //@ fn rustzx-z80/src/bus.rs trait Z80Bus::wait_loop props C04
 //@ sig
